@@ -92,6 +92,23 @@ func runC13(w *World, r *Report, tier string) {
 				if fieldNames(fieldPath(kc.Common().Args[0])) != "transport" {
 					bad = "keepalive is not started on the client's transport"
 				}
+				// Resume is what the retry loop calls: an error return makes it try again, while a receive loop that is
+				// already running reports its own loss and starts a second loop. Once the loops are started, Resume
+				// has succeeded — whatever can still fail (the post-resume hook) comes before them.
+				if k == "xmpp.(*Client).Resume" {
+					res := resolveOn(rres(path, ret)[len(ret.Results)-1], len(path)-1, path)
+					if !isNilConst(res) {
+						// failing steps after the start of the loops
+						iStart := indexOn(path, isRecv)
+						for _, in := range path[iStart+1:] {
+							if c := asCall(in); c != nil {
+								if _, isGo := in.(*ssa.Go); !isGo && c.Common().Signature().Results().Len() > 0 {
+									bad = fmt.Sprintf("Resume can still fail (%s) after it has started the receive loop: the retry loop tries again while the running receiver reports its own loss — two reconnection loops, two sessions for one loss", w.ipos(in))
+								}
+							}
+						}
+					}
+				}
 				return
 			}
 			if nr == 0 && nk == 0 {
